@@ -366,7 +366,45 @@ struct Orig<'a> {
     scalar_from_rewriting: bool,
 }
 
-fn judge<G: GraphLike>(o: &Orig, site: &str, path: &str, text: &str, g2: &G) {
+/// A decoded diagram is itself a well-formed diagram whose scalar has the same value: encode
+/// it again, decode, and judge the result against the *original* (first-trip artefacts such
+/// as the approx flag set by the decoder must not change what the second trip preserves).
+fn second_trip<G: GraphLike>(o: &Orig, site: &str, path: &str, g2: &G) {
+    let c = ctx();
+    let path2 = format!("{path}->re-encoded->same-backend");
+    let text2 = match guarded(|| quizx::json::encode_graph(g2)) {
+        Err(e) => {
+            report_caught(o, site, "re-encode", &path2, None, e);
+            return;
+        }
+        Ok(Err(e)) => {
+            c.violation(
+                &format!("{site}|re-encode-err"),
+                o.family,
+                o.index,
+                json!({"what": "encode_graph returned Err on a decoded diagram", "path": path2, "original": o.n.to_json(), "error": format!("{e}")}),
+            );
+            return;
+        }
+        Ok(Ok(t)) => t,
+    };
+    match guarded(|| quizx::json::decode_graph::<G>(&text2)) {
+        Err(e) => report_caught(o, site, "decode", &path2, Some(&text2), e),
+        Ok(Err(e)) => c.violation(
+            &format!("{site}|decode-err|second-trip"),
+            o.family,
+            o.index,
+            json!({"what": "decode_graph returned Err on the re-encoding of a decoded diagram", "path": path2, "original": o.n.to_json(), "json": trunc(&text2), "error": format!("{e}")}),
+        ),
+        Ok(Ok(g3)) => {
+            c.count("path:second-trip", 1);
+            let _ = judge(o, site, &path2, &text2, &g3);
+        }
+    }
+}
+
+/// Returns true when structure and scalar were judged preserved.
+fn judge<G: GraphLike>(o: &Orig, site: &str, path: &str, text: &str, g2: &G) -> bool {
     let c = ctx();
     let opts = IsoOpts::default();
     let dec = match guarded(|| Neutral::of_graph(g2, "decoded")) {
@@ -378,7 +416,7 @@ fn judge<G: GraphLike>(o: &Orig, site: &str, path: &str, text: &str, g2: &G) {
                 o.index,
                 json!({"path": path, "original": o.n.to_json(), "json": trunc(text), "error": e.text()}),
             );
-            return;
+            return false;
         }
     };
     let detail = |what: &str, extra: Value| {
@@ -463,6 +501,11 @@ fn judge<G: GraphLike>(o: &Orig, site: &str, path: &str, text: &str, g2: &G) {
             }
         }
     }
+    structure_ok && scalar_ok
+}
+
+fn r_gl(i: u64) -> bool {
+    i % 2 == 0
 }
 
 fn dec_scalar<G: GraphLike>(g: &G) -> &Scalar4 {
@@ -518,7 +561,9 @@ fn roundtrip_from<A: GraphLike>(o: &Orig, from: &str, scramble: Option<u64>, to_
             ),
             Ok(Ok(g2)) => {
                 c.count(&format!("path:{path}"), 1);
-                judge(o, site, &path, &text, &g2);
+                if judge(o, site, &path, &text, &g2) {
+                    second_trip(o, site, &path, &g2);
+                }
             }
         }
     }
@@ -534,7 +579,9 @@ fn roundtrip_from<A: GraphLike>(o: &Orig, from: &str, scramble: Option<u64>, to_
             ),
             Ok(Ok(g2)) => {
                 c.count(&format!("path:{path}"), 1);
-                judge(o, site, &path, &text, &g2);
+                if judge(o, site, &path, &text, &g2) {
+                    second_trip(o, site, &path, &g2);
+                }
             }
         }
     }
@@ -546,8 +593,7 @@ fn roundtrip_from<A: GraphLike>(o: &Orig, from: &str, scramble: Option<u64>, to_
 fn roundtrip_file(o: &Orig, scramble: Option<u64>) {
     let c = ctx();
     let site = "qgraph-file";
-    let dir = format!("/verif/harness/target/tmp/c13-{}", std::process::id());
-    let _ = std::fs::create_dir_all(&dir);
+    let dir = crate::fw::scratch_dir("c13");
     let file = format!("{dir}/{}-{}-{:?}.qgraph", o.family, o.index, std::thread::current().id());
     let path = std::path::Path::new(&file);
     let g: VecG = o.n.build(scramble);
@@ -576,7 +622,7 @@ fn roundtrip_file(o: &Orig, scramble: Option<u64>) {
         ),
         Ok(Ok(g2)) => {
             c.count("path:vec-file->hash", 1);
-            judge(o, site, "vec-file->hash", &text, &g2);
+            let _ = judge(o, site, "vec-file->hash", &text, &g2);
         }
     }
     let _ = std::fs::remove_file(path);
@@ -612,7 +658,7 @@ fn roundtrip_serde(o: &Orig, scramble: Option<u64>) {
         ),
         Ok(Ok(g2)) => {
             c.count("path:hash-serde", 1);
-            judge(o, site, "hash-serde", &text, &g2);
+            let _ = judge(o, site, "hash-serde", &text, &g2);
         }
     }
 }
@@ -646,11 +692,21 @@ pub fn check_neutral(family: &'static str, index: u64, r: &mut Rng, n: &Neutral)
     let from_rewriting = n.scalar_src.starts_with("simplifier") || n.scalar_src == "one" || n.scalar_src == "hand-exact";
     let o = Orig { family, index, n, iso: n.to_iso(), tens, scalar_from_rewriting: from_rewriting };
     let scr = if r.chance(0.5) { Some(r.next_u64()) } else { None };
-    roundtrip_from::<VecG>(&o, "vec", scr, true, true);
-    roundtrip_from::<HashG>(&o, "hash", scr, true, true);
-    roundtrip_serde(&o, scr);
-    if index % 8 == 0 {
+    if family == "large-sparse" {
+        // three paths only (the isomorphism search on ~1000 vertices dominates the cost)
         roundtrip_file(&o, scr);
+        if index % 2 == 0 {
+            roundtrip_from::<VecG>(&o, "vec", scr, false, true);
+        } else {
+            roundtrip_serde(&o, scr);
+        }
+    } else {
+        roundtrip_from::<VecG>(&o, "vec", scr, true, true);
+        roundtrip_from::<HashG>(&o, "hash", scr, true, true);
+        roundtrip_serde(&o, scr);
+        if index % 8 == 0 {
+            roundtrip_file(&o, scr);
+        }
     }
     // evidence
     let cls = classify_scalar(&n.scalar);
@@ -982,6 +1038,28 @@ pub fn run() {
     par_cases("large-denominators", n_large, move |r, i| {
         let n = gen_arbitrary(r, ms, true);
         check_neutral("large-denominators", i, r, &n);
+    });
+    // files well beyond one I/O buffer (64 KiB is about 350 vertices): 300-1500 spiders
+    let n_ls = t.pick(40usize, 3_000usize);
+    par_cases("large-sparse", n_ls, move |r, i| {
+        let hi = *r.pick(&[450usize, 700, 1000]);
+        let d = gen_long_sparse(r, 300, hi, PhasePool::Exact, r_gl(i), 0.0);
+        let mut n = Neutral::from_desc(&d);
+        for v in n.verts.iter_mut() {
+            if v.kind != VType::B && r.chance(0.2) {
+                v.ph = rand_phase(r, &SMALL_DENS);
+            }
+        }
+        set_coords(r, &mut n);
+        if n.coord_mode == "zero" || n.coord_mode == "dyadic-with-duplicates" {
+            // keep the vertices distinguishable: the anchored search is quadratic otherwise
+            n.coord_mode = "unique-grid";
+            for (k, v) in n.verts.iter_mut().enumerate() {
+                v.x = 1.0 + k as f64;
+                v.y = (k % 4) as f64;
+            }
+        }
+        check_neutral("large-sparse", i, r, &n);
     });
     // exhaustive: every sqrt2^p * omega^k, |p| <= P, on a one-wire diagram with one spider
     let pmax = t.pick(40i64, 200i64);
